@@ -1,9 +1,11 @@
 package props
 
 import (
+	"encoding/hex"
 	"fmt"
 	"math/big"
 	"strconv"
+	"strings"
 	"testing"
 
 	sdk "github.com/cosmos/cosmos-sdk/types"
@@ -21,7 +23,7 @@ import (
 // same genesis; only the call data that switches the frame's effects on or off differs.
 
 type c03bEffect struct {
-	Kind string `json:"kind"` // sstore | log | erc20transfer | erc20approve | delegate | pay | create | tsend
+	Kind string `json:"kind"` // sstore | log | erc20transfer | erc20approve | erc20transferFrom | erc20burnFrom | delegate | pay | create | tsend
 	Slot int    `json:"slot,omitempty"`
 	Val  uint64 `json:"val,omitempty"`
 	To   int    `json:"to,omitempty"`
@@ -47,8 +49,20 @@ func childAddr(i int) string { return poolAddr(0x20 + i) }
 
 const wrapperAddr = "0xc0de0000000000000000000000000000000000ff"
 
-func c03bEffectStmts(e c03bEffect, nv int) []evmgen.Stmt {
+// c03bParty maps an effect's To to an address: 0..2 = EOAs, 3.. = the top-level frame contracts (so that allowances
+// granted in one frame can be spent by another frame of the same transaction).
+func c03bParty(to, nframes int) common.Address {
+	if to >= 3 && nframes > 0 {
+		return common.HexToAddress(frameAddr((to - 3) % nframes))
+	}
+	return chain.K(1 + to%3).Addr
+}
+
+func c03bEffectStmts(e c03bEffect, nv, nframes int) []evmgen.Stmt {
 	to := chain.K(1 + e.To%3).Addr
+	if strings.HasPrefix(e.Kind, "erc20") {
+		to = c03bParty(e.To, nframes) // a token recipient / spender runs no code
+	}
 	amt := new(big.Int).SetUint64(e.Val)
 	switch e.Kind {
 	case "sstore":
@@ -59,16 +73,31 @@ func c03bEffectStmts(e c03bEffect, nv int) []evmgen.Stmt {
 		return []evmgen.Stmt{{Op: "call", A: erc20NativeAddr().Hex(), B: "0", N: 100000, Data: packErc20("transfer", to, amt)}}
 	case "erc20approve":
 		return []evmgen.Stmt{{Op: "call", A: erc20NativeAddr().Hex(), B: "0", N: 100000, Data: packErc20("approve", to, amt)}}
+	case "erc20transferFrom": // spends the allowance the frame contract Slot granted to the executing contract
+		return []evmgen.Stmt{{Op: "call", A: erc20NativeAddr().Hex(), B: "0", N: 100000, Data: packErc20("transferFrom", common.HexToAddress(frameAddr(e.Slot%nframes)), to, amt)}}
+	case "erc20burnFrom":
+		return []evmgen.Stmt{{Op: "call", A: erc20NativeAddr().Hex(), B: "0", N: 100000, Data: packErc20("burnFrom", common.HexToAddress(frameAddr(e.Slot%nframes)), amt)}}
 	case "delegate":
 		return []evmgen.Stmt{{Op: "call", A: stakingCpcAddr().Hex(), B: "0", N: 1200000, Data: packStaking("delegate", chain.ValOperKey(e.To%nv).Addr, amt)}}
 	case "pay":
 		return []evmgen.Stmt{{Op: "call", A: to.Hex(), B: strconv.FormatUint(e.Val, 10)}}
 	case "create":
-		return []evmgen.Stmt{{Op: "create", B: strconv.FormatUint(e.Val%1000, 10), Data: evmgen.CompileHex(evmgen.Program{{Op: "sstore", A: "1", B: "0x7"}, {Op: "return", N: 0}})}}
+		return []evmgen.Stmt{{Op: "create", B: strconv.FormatUint(e.Val%1000, 10), Data: c03bInitCode(e.Val)}}
 	case "tsend": // staking precompile transfer: moves delegation
 		return []evmgen.Stmt{{Op: "call", A: stakingCpcAddr().Hex(), B: "0", N: 1200000, Data: packStaking("transfer", to, amt)}}
 	}
 	panic("bad effect " + e.Kind)
+}
+
+// c03bInitCode is init code that writes a slot and deploys runtime code never seen before (it embeds val), so that a
+// creation inside a failing frame would leave a new code record behind if anything of it survived.
+func c03bInitCode(val uint64) string {
+	a := evmgen.NewAsm()
+	a.PushU(7).PushU(1).Op(evmgen.SSTORE)
+	runtime := evmgen.NewAsm().PushU(val + 0x100000).Op(evmgen.POP).Op(evmgen.STOP).Bytes()
+	a.MstoreBytes(0, runtime)
+	a.PushU(uint64(len(runtime))).PushU(0).Op(evmgen.RETURN)
+	return hex.EncodeToString(a.Bytes())
 }
 
 func termStmt(term string) evmgen.Stmt {
@@ -86,10 +115,10 @@ func termStmt(term string) evmgen.Stmt {
 }
 
 // frameCode: call data byte 0 selects: 1 = effects + child(on), 3 = effects + child(off), anything else = nothing.
-func frameCode(f c03bFrame, idx int, nv int, isChild bool) string {
+func frameCode(f c03bFrame, idx int, nv, nframes int, isChild bool) string {
 	var eff []evmgen.Stmt
 	for _, e := range f.Effects {
-		eff = append(eff, c03bEffectStmts(e, nv)...)
+		eff = append(eff, c03bEffectStmts(e, nv, nframes)...)
 	}
 	var p evmgen.Program
 	on := append([]evmgen.Stmt{}, eff...)
@@ -116,9 +145,9 @@ func c03bWorld(cs c03bCase) chain.World {
 	}
 	var a, b evmgen.Program // wrapper: variant 1 (everything on), variant 2 (failing frames do nothing)
 	for i, f := range cs.Frames {
-		w.Contracts = append(w.Contracts, chain.GenContract{Addr: frameAddr(i), Code: frameCode(f, i, nv, false), Nonce: 1, Balance: "1000000000000000000"})
+		w.Contracts = append(w.Contracts, chain.GenContract{Addr: frameAddr(i), Code: frameCode(f, i, nv, len(cs.Frames), false), Nonce: 1, Balance: "1000000000000000000"})
 		if f.Child != nil {
-			w.Contracts = append(w.Contracts, chain.GenContract{Addr: childAddr(i), Code: frameCode(*f.Child, i, nv, true), Nonce: 1, Balance: "1000000000000000000"})
+			w.Contracts = append(w.Contracts, chain.GenContract{Addr: childAddr(i), Code: frameCode(*f.Child, i, nv, len(cs.Frames), true), Nonce: 1, Balance: "1000000000000000000"})
 		}
 		gas := uint64(0)
 		if f.Term == "oog" || f.Term == "invalid" {
@@ -143,7 +172,7 @@ func c03bWorld(cs c03bCase) chain.World {
 }
 
 func genC03bFrame(t *rapid.T, child bool) c03bFrame {
-	kinds := []string{"sstore", "log", "erc20transfer", "erc20approve", "delegate", "pay", "create", "tsend", "erc20transfer", "erc20approve", "delegate"}
+	kinds := []string{"sstore", "log", "erc20transfer", "erc20approve", "delegate", "pay", "create", "tsend", "erc20transfer", "erc20approve", "delegate", "erc20transferFrom", "erc20burnFrom"}
 	f := c03bFrame{Term: rapid.SampledFrom([]string{"stop", "return", "revert", "revert", "invalid", "oog"}).Draw(t, "term")}
 	for n := rapid.IntRange(1, 4).Draw(t, "neffects"); n > 0; n-- {
 		f.Effects = append(f.Effects, c03bEffect{Kind: rapid.SampledFrom(kinds).Draw(t, "kind"), Slot: rapid.IntRange(0, 7).Draw(t, "slot"),
@@ -161,6 +190,21 @@ func genC03b(t *rapid.T) c03bCase {
 	cs := c03bCase{NumVals: rapid.IntRange(1, 3).Draw(t, "nvals"), TopRevert: rapid.IntRange(0, 4).Draw(t, "toprevert") == 4}
 	for n := rapid.IntRange(1, 4).Draw(t, "nframes"); n > 0; n-- {
 		cs.Frames = append(cs.Frames, genC03bFrame(t, false))
+	}
+	// allowance flows across frames: frame i approves frame j (or spends what an earlier frame was granted), so
+	// that a precompile write of a failing frame is followed by a precompile call that depends on it
+	for n := rapid.IntRange(0, 2).Draw(t, "nflows"); n > 0 && len(cs.Frames) >= 2; n-- {
+		i := rapid.IntRange(0, len(cs.Frames)-1).Draw(t, "flowowner")
+		j := rapid.IntRange(0, len(cs.Frames)-1).Draw(t, "flowspender")
+		granted := rapid.Uint64Range(1, 1000000).Draw(t, "flowgrant")
+		spent := rapid.SampledFrom([]uint64{granted, granted / 2, granted + 1, 1}).Draw(t, "flowspend")
+		kind := rapid.SampledFrom([]string{"erc20transferFrom", "erc20transferFrom", "erc20burnFrom"}).Draw(t, "flowkind")
+		cs.Frames[i].Effects = append(cs.Frames[i].Effects, c03bEffect{Kind: "erc20approve", To: 3 + j, Val: granted})
+		cs.Frames[j].Effects = append(cs.Frames[j].Effects, c03bEffect{Kind: kind, Slot: i, Val: spent, To: rapid.IntRange(0, 5).Draw(t, "flowto")})
+		if rapid.Bool().Draw(t, "respend") {
+			k := rapid.IntRange(0, len(cs.Frames)-1).Draw(t, "flowagain")
+			cs.Frames[k].Effects = append(cs.Frames[k].Effects, c03bEffect{Kind: kind, Slot: i, Val: spent, To: rapid.IntRange(0, 5).Draw(t, "flowto2")})
+		}
 	}
 	return cs
 }
@@ -277,7 +321,7 @@ func runC03b(cs c03bCase) *Outcome {
 	for _, f := range cs.Frames {
 		cpcIn := func(fr c03bFrame) bool {
 			for _, e := range fr.Effects {
-				if e.Kind == "erc20transfer" || e.Kind == "erc20approve" || e.Kind == "delegate" || e.Kind == "tsend" {
+				if e.Kind == "erc20transfer" || e.Kind == "erc20approve" || e.Kind == "erc20transferFrom" || e.Kind == "erc20burnFrom" || e.Kind == "delegate" || e.Kind == "tsend" {
 					return true
 				}
 			}
@@ -290,6 +334,24 @@ func runC03b(cs c03bCase) *Outcome {
 			o.NonTrivial = true
 		}
 		o.label("term:" + f.Term)
+	}
+	for i, f := range cs.Frames {
+		grants := false
+		for _, e := range f.Effects {
+			if e.Kind == "erc20approve" && e.To >= 3 {
+				grants = true
+			}
+		}
+		if !grants || !(f.fails() || cs.TopRevert) {
+			continue
+		}
+		for _, g := range cs.Frames {
+			for _, e := range g.Effects {
+				if (e.Kind == "erc20transferFrom" || e.Kind == "erc20burnFrom") && e.Slot%len(cs.Frames) == i {
+					o.label("spend-of-allowance-granted-in-failing-frame")
+				}
+			}
+		}
 	}
 	if len(diffView(a.pre, a.post)) > 6 {
 		o.label("kept-effects")
